@@ -232,6 +232,12 @@ where
                 let op_idx = find_op_of_comma(&res).ok_or_else(|| {
                     exerr!("could not find operator for comma, could be operator with more than 2 args (not supported), missing operator, or paren mismatch",)
                 })?;
+                if depths_of_pending_calls.last() == Some(&(paren_depth - 1)) {
+                    // second comma of the same call, its operator has already been moved
+                    return Err(exerr!(
+                        "found a second comma, operators with more than 2 args are not supported",
+                    ));
+                }
                 let op_at_comma = mem::replace(&mut res[op_idx], ParsedToken::Paren(Paren::Open));
                 depths_of_pending_calls.push(paren_depth - 1);
                 res.push(ParsedToken::Paren(Paren::Close));
